@@ -254,7 +254,7 @@ impl Scenario for C13 {
                 &[EvPat {
                     contract: w.sc_addr(&ctx.gw),
                     name: "contract_called",
-                    must: vec![w.sc_addr_val(&sender), sstr(&chain), sstr(&addr), sbytes(&payload), sbytes(&keccak(&payload))],
+                    must: vec![w.sc_addr_val(&sender), sstr(&chain), sstr(&addr), sbytes(&keccak(&payload)), sbytes(&payload)],
                 }],
                 &["contract_called", "message_approved", "message_executed", "signers_rotated"],
             );
